@@ -55,6 +55,12 @@ def script(assertions, want_model=True):
             return "|" + x.args[0] + "|"
         return "(" + x.op + " " + " ".join(render(c) for c in x.args) + ")"
 
+    ufs = {}
+    for x in order:
+        if x.op.startswith("uf_"):
+            ufs[x.op] = len(x.args)
+    for nm, ar in sorted(ufs.items()):
+        lines.append(f"(declare-fun {nm} ({' '.join(['Int'] * ar)}) Int)")
     k = 0
     for x in order:
         if x.op in ("const", "var"):
